@@ -49,6 +49,7 @@ type gen struct {
 	vars []string
 	strs []string // string literals used by the path
 	reuseTop, reuseFilter []string // expressions generated so far for this path, by scope
+	made                  []any    // containers generated so far for this document
 }
 
 var keyPool = []string{"a", "b", "c", "d", "x", "key", "value", "id", "é", "a b"}
@@ -579,6 +580,12 @@ func (g *gen) value(depth int, repr int) any {
 	if depth <= 0 {
 		return g.scalar(repr)
 	}
+	// now and then the same subtree again (as an equal copy; the stream aliases equal containers
+	// in half of the groups, so that one container is reachable from two positions)
+	if len(g.made) > 0 && g.pct(12) {
+		return deepCopy(g.made[g.r.Intn(len(g.made))])
+	}
+	var out any
 	switch g.choose(5, 4, 4) {
 	case 0:
 		return g.scalar(repr)
@@ -588,10 +595,12 @@ func (g *gen) value(depth int, repr int) any {
 		for i := range arr {
 			arr[i] = g.value(depth-1, repr)
 		}
-		return arr
+		out = arr
 	default:
-		return g.object(depth, repr)
+		out = g.object(depth, repr)
 	}
+	g.made = append(g.made, out)
+	return out
 }
 
 func (g *gen) object(depth int, repr int) any {
@@ -615,6 +624,7 @@ func (g *gen) document() (any, map[string]any, int) {
 	if repr == 2 {
 		repr = g.r.Intn(2)
 	}
+	g.made = nil
 	doc := g.value(1+g.r.Intn(3), repr)
 	var vars map[string]any
 	if len(g.vars) > 0 || g.pct(5) {
